@@ -118,9 +118,15 @@ def scenarios(root):
         add(f"clone-{suffix}", "clone", (lambda d: lambda t: base(t, dest=d, dest_sp=OLD, dest_proj="Q"))(dest),
             lambda j: signac.Project(qp).clone(j), new=OLD, dest=dest)
     # removal family
-    add("remove", "remove", lambda t: base(t), lambda j: j.remove())
-    add("clear", "clear", lambda t: base(t), lambda j: j.clear())
-    add("reset", "clear", lambda t: base(t), lambda j: j.reset())
+    def setup_with_link(t):
+        # the affected job also holds a symbolic link to a file of a bystander: removing the job's content must never
+        # reach through the link
+        base(t)
+        os.symlink(os.path.join("..", canon.job_id(BY[0]), "top.txt"),
+                   os.path.join(t, "P", "workspace", canon.job_id(OLD), "link_to_bystander.txt"))
+    add("remove", "remove", setup_with_link, lambda j: j.remove())
+    add("clear", "clear", setup_with_link, lambda j: j.clear())
+    add("reset", "clear", setup_with_link, lambda j: j.reset())
     return S
 
 
